@@ -9,6 +9,8 @@ L3  every n in 1..64 and 122, 197 (both tiers; larger lists for n <= 16 quick / 
     orientation incl. gimbal lock, any position / shift) x offsets incl. on-axis: per output row the driver logs
     parent, index, id, the nearest element of {Rz(360 j/n)} to R_parent^-1 R_out and integer-scaled residuals;
     SymExpandTrace.tla decides.
+Composition: C1 / C2 / C4 expansions also run as steps of the mixed histories of mbt/motlsys.py, judged by
+MotlSysTrace.tla with Scope = "sym" against SymExpand's orientation / position operators on the previous logged state.
 """
 import json
 import math
@@ -17,7 +19,7 @@ import random
 
 import numpy as np
 
-from .. import argguard, core, geo, motlutil
+from .. import argguard, core, geo, motlsys, motlutil
 
 FIELDS = motlutil.FIELDS
 INHERIT = ["score", "geom1", "tomo_id", "object_id", "subtomo_mean", "geom3", "geom4", "class"]
@@ -328,6 +330,9 @@ def run_float(ctx, cases):
 
 
 def replay(ctx, case):
+    if case["kind"] == "mixed":
+        motlsys.run_mixed(ctx, "sym", [case])
+        return
     if case["kind"] == "exact":
         run_exact(ctx, {"case": case["case"], "outs": case["outs"]}, case.get("variant", 0))
     elif case["kind"] == "float":
@@ -386,3 +391,7 @@ def run(ctx):
         ctx.exhaustive["L3_every_n_1_64_and_122_197_x_5_spellings"] = True
         ctx.extra["float_cases"] = len(cases)
         run_float(ctx, cases)
+    if not only or "mixed" in only:
+        # composition: C1 / C2 / C4 expansions interleaved with pose / set / spatial operations and format round trips
+        # on one live list (MotlSysTrace.tla, Scope = "sym": only the expansion steps are judged)
+        motlsys.run(ctx, "sym", ctx.pick(120, 2500))
